@@ -15,7 +15,8 @@ Mirrors, in the order of the C code (repository state after the `fix:` commits l
 * `do_catch`              src/frame.c   save_context / push_control_stack (FRAME_CATCH) / setjmp; on error
                           restore_context, `sp++`, then the two `get_error_state` tests: pop_context (clears the
                           state), set the bit again (fix), re-raise; otherwise pop_context and continue         → `Sh.catch_`
-* `safe_apply`            src/apply.c   save_context, apply, on error restore_context; pop_context               → `Sh.safe`
+* `safe_apply`            src/apply.c   save_context, apply, on error restore_context, one tick left to the caller
+                          when the budget ran out inside (fix); pop_context                                     → `Sh.safe`
 * `pop_context`           src/error_context.c   `clear_error_state ()`
 
 Depths and heights are counted in elements: `depth = csp - control_stack + 1`, `sp = sp - start_of_stack + 1`.
@@ -93,12 +94,14 @@ inductive Ctx
 def setEs (s : St) (bit : Nat) : St := { s with es := s.es ||| bit }
 def hasEs (s : St) (bit : Nat) : Bool := s.es &&& bit != 0
 
-/-- `error ()` → `error_handler`: the master's handler runs first.  For an error that a catch frame will receive the
-    limit bits are kept across it (fix); otherwise a catch completing inside the handler (pop_context) clears them. -/
-def raise (cfg : Cfg) (ctx : Ctx) (k : Kind) (s : St) : Out × St :=
-  match ctx with
-  | .catch_ => (.raised k, s)
-  | _ => (.raised k, if cfg.handlerCatches then { s with es := 0 } else s)
+/-- `error ()` → `error_handler`: the master's handler runs first, then the longjmp to the innermost context.  A
+    catch or safe apply completing inside the handler pops a context, which clears `error_state`; error_handler
+    keeps the limit bits across the handler call (fixes 46c02c6 and d927c4d), so whatever the handler does
+    (`cfg.handlerCatches`) the receiving context sees the state of the raise. -/
+def raise (_cfg : Cfg) (_ctx : Ctx) (k : Kind) (s : St) : Out × St := (.raised k, s)
+
+/-- the evaluation budget as configured: rc.cpp and set_eval_limit clamp it to at least 1 (fix 7c5c9ea) -/
+def clampCost (v : Int) : Int := if v < 1 then 1 else v
 
 /-- one instruction fetch of eval_instruction: `if (!--eval_cost)` -/
 def tick (cfg : Cfg) (ctx : Ctx) (s : St) : Out × St :=
@@ -210,7 +213,9 @@ def exec (cfg : Cfg) : Nat → Ctx → Sh → St → Out × St
       seqM (pushFrame cfg ctx s) fun s1 =>
       seqM (pushChecked cfg ctx locals s1) fun s2 =>
       seqM (ticksN cfg ctx callTicks s2) fun s3 =>
-      seqM (exec cfg f ctx body s3) fun s4 => (.ok, leave s4 s.depth s.sp)
+      seqM (exec cfg f ctx body s3) fun s4 =>
+      -- F_RETURN is an instruction of the function, too
+      seqM (tick cfg ctx s4) fun s5 => (.ok, leave s5 s.depth s.sp)
     | .recur locals =>
       -- f () { <locals>; f (); } : `call locals (recur locals)`, unfolded with the fuel
       exec cfg f ctx (.call locals (.recur locals)) s
@@ -221,16 +226,24 @@ def exec (cfg : Cfg) : Nat → Ctx → Sh → St → Out × St
     | .cb (k + 1) body =>
       -- an efun that calls back: each callback is a function call (fake frame + function frame); errors
       -- propagate out of the efun (call_efun_callback is not a safe apply)
+      -- call_efun_callback charges a tick of its own per callback (fix: `if (!--eval_cost)` there, too)
+      seqM (tick cfg ctx s) fun s =>
       seqM (exec cfg f ctx (.call 0 (.call 0 body)) s) fun s => exec cfg f ctx (.cb k body) s
     | .safe body =>
       -- safe_apply: save_context fails silently at full depth (returns 0); an error is swallowed;
       -- pop_context clears error_state either way
+      -- (the efun that makes the safe apply is itself an instruction of the caller)
+      seqM (tick cfg ctx s) fun s =>
       if s.depth - 1 == cfg.maxDepth - 1 then (.ok, s)
       else
         (match exec cfg f .safe (.call 0 body) s with
          | (.ok, s1) => (.ok, { s1 with es := 0 })
          | (.raised k, s1) =>
-           (.ok, { (leave s1 s.depth s.sp) with es := 0, evs := .safeSwallowed k :: s1.evs })
+           -- restore_context; `if (get_error_state (ES_MAX_EVAL_COST)) eval_cost = 1;` (fix d927c4d: the budget ran
+           -- out inside the call and was refreshed for the handler - the caller has one tick left); pop_context
+           (.ok, { (leave s1 s.depth s.sp) with
+                     cost := if hasEs s1 esMaxEvalCost then 1 else s1.cost,
+                     es := 0, evs := .safeSwallowed k :: s1.evs })
          | (.fuel, s1) => (.fuel, s1))
     | .catch_ body =>
       -- do_catch (src/frame.c).
